@@ -273,6 +273,9 @@ func c16Run(seed seedDoc, cfg Cfg, hist []c16Op) (what, fp string) {
 		} else {
 			var eo editOp
 			e := c16Edits[o.Edit]
+			if e == opSetStrBytes && o.Pos == 1 {
+				e = opSetStrEsc // a replacement shorter than most strings of the seeds
+			}
 			if e == opArrDelete {
 				cps := containerPositions(src.docs)
 				var arrs []vpath
